@@ -55,6 +55,9 @@ func main() {
 	keepMeta := flag.Bool("keep-meta-file", false, "internal: stress with frac.Config.KeepMetaFile=true")
 	flag.Parse()
 	logger.SetLevel(zapcore.FatalLevel)
+	if os.Getenv("VERIF_C07_LOG") != "" { // debugging aid: show what the store logs at Error level during a -probe
+		logger.SetLevel(zapcore.ErrorLevel)
+	}
 
 	if *probe != "" {
 		runProbe(*probe)
